@@ -2,4 +2,4 @@ CONSTANT MaxLen = 4096
 CONSTANT StreamLen = 4
 INIT Init
 NEXT Next
-INVARIANTS LayoutOK StreamOK
+INVARIANTS LayoutOK StreamOK InsideStreamOK
